@@ -221,34 +221,43 @@ def styleSheet (styles : Dict) (text : String) : Dict :=
 
 /-- `style += extra`, with a `;` in between when `style` is not empty -/
 def joinStyle (style : String) (extra : String) : String :=
-  if style.isEmpty then extra else style ++ ";" ++ extra
+  if style = "" then extra else style ++ ";" ++ extra
+
+/-- `if sel in styles: style += styles[sel]` (with the `;` in between) -/
+def addSel (styles : Dict) (st sel : String) : String :=
+  match Dict.get styles sel with
+  | some v => joinStyle st v
+  | none => st
 
 /-- the style text of an element: `*`, type, then per class `.class` and `type.class`, then `#id`,
     then the inline style (svgelements.py:9157-9189) -/
 def styleText (styles : Dict) (tag : String) (attrs : Dict) : String :=
-  let s0 := match Dict.get styles "*" with | some v => v | none => ""
-  let s1 := match Dict.get styles tag with | some v => joinStyle s0 v | none => s0
+  let s1 := addSel styles (addSel styles "" "*") tag
   let s2 := match Dict.get attrs "class" with
     | none => s1
     | some cls =>
       (splitOn ' ' cls.toList).foldl (fun st c =>
-        let c := String.ofList c
-        let st := match Dict.get styles ("." ++ c) with | some v => joinStyle st v | none => st
-        match Dict.get styles (tag ++ "." ++ c) with | some v => joinStyle st v | none => st) s1
+        addSel styles (addSel styles st ("." ++ String.ofList c)) (tag ++ "." ++ String.ofList c)) s1
   let s3 := match Dict.get attrs "id" with
     | none => s2
-    | some i => match Dict.get styles ("#" ++ i) with | some v => joinStyle s2 v | none => s2
+    | some i => addSel styles s2 ("#" ++ i)
   match Dict.get attrs "style" with
   | some v => joinStyle s3 v
   | none => s3
+
+/-- one `;`-separated item: a declaration when it splits into exactly two fields at `:` -/
+def declOf (item : List Char) : Option (String × String) :=
+  match splitOn ':' item with
+  | [k, v] => some (String.ofList (pyStrip k), String.ofList (pyStrip v))
+  | _ => none
 
 /-- "process style tag left to right": `key:value` items separated by `;`, anything that does not
     split into exactly two fields at `:` is ignored -/
 def applyStyle (attrs : Dict) (style : String) : Dict :=
   (splitOn ';' style.toList).foldl (fun a item =>
-    match splitOn ':' item with
-    | [k, v] => Dict.set a (String.ofList (pyStrip k)) (String.ofList (pyStrip v))
-    | _ => a) attrs
+    match declOf item with
+    | some kv => Dict.set a kv.1 kv.2
+    | none => a) attrs
 
 /-- `currentColor` for one paint key -/
 def currentColor (attrs : Dict) (inherited : Dict) (key : String) : Dict :=
